@@ -309,8 +309,37 @@ def star_imports():
     return out
 
 
+def comparison_bounds():
+    """Every pair of comparisons of one variable with constants in every order relation, under `and` / `or`, in a value
+    context (return) and in a test (if): the boundary values decide (seed C01-b relaxed `<` to `<=` in the bound table of
+    symbolic_math.simplify_boolean_expressions).  One program per boolean operator and context; each evaluates all
+    6 x 6 x 3 combinations on every integer from -1 to 5."""
+    out = {}
+    ops = ("<", "<=", ">", ">=", "==", "!=")
+    consts = ((1, 3), (2, 2), (3, 1))
+    for bop in ("and", "or"):
+        for ctx in ("return", "if"):
+            lines, names = [], []
+            for a in ops:
+                for b in ops:
+                    for (c1, c2) in consts:
+                        name = f"f{len(names)}"
+                        names.append(name)
+                        cond = f"x {a} {c1} {bop} x {b} {c2}"
+                        if ctx == "return":
+                            lines += [f"def {name}(x):", f"    return {cond}"]
+                        else:
+                            lines += [f"def {name}(x):", f"    if {cond}:", "        return 'y'", "    return 'n'"]
+            lines.append("fs = [" + ", ".join(names) + "]")
+            lines.append("for f in fs:")
+            lines.append("    print([f(v) for v in range(-1, 6)])")
+            out[f"bounds:{bop}:{ctx}"] = _j(*lines)
+    return out
+
+
 FAMILIES = {"imports": import_scope, "lazy": lazy_iterators, "rebound": rebound_builtins, "strings": string_literals, "indent": indentation,
-            "scopes": scopes, "classbody": class_bodies, "static": static_methods, "abstr": abstractions_and_perf, "star": star_imports}
+            "scopes": scopes, "classbody": class_bodies, "static": static_methods, "abstr": abstractions_and_perf, "star": star_imports,
+            "bounds": comparison_bounds}
 
 
 def all_programs() -> list[tuple[str, str]]:
